@@ -625,11 +625,17 @@ fn run_schedule_inner(ctx: &Ctx, sched: &Schedule, job: usize, first: bool) -> O
 /// Unforced stress: go / stop / go cycles at natural speed; the GUI answers bestmove at once.
 fn stress_session(ctx: &Ctx, idx: usize, seeds: &[String], cycles: u64) {
     let mut rng = Rng::derive(ctx.seed, 0xC10_5000 + idx as u64);
-    let env = vec![("RCE_VERIF_TRACE".to_string(), "1".to_string())];
+    let mut env = vec![("RCE_VERIF_TRACE".to_string(), "1".to_string())];
+    // every third stress session has both engine threads time-sliced on a single CPU
+    let pinned = idx % 3 == 2;
+    if pinned {
+        env.push(("VH_PIN_CPU".to_string(), (idx % 16).to_string()));
+        out::count("C10.stress_sessions_pinned_to_one_cpu", 1);
+    }
     let Ok(mut e) = Engine::spawn(&ctx.engine, &env) else { return };
     let mut out_from = 0usize;
     let sched = Schedule {
-        name: "stress[natural]".into(),
+        name: if pinned { "stress[one-cpu]".into() } else { "stress[natural]".into() },
         sched: String::new(),
         steps: vec![],
         held_ms: 0,
